@@ -112,7 +112,7 @@ def dialStart (c : Conn) : Conn :=
     the error return is the one report, the descriptor is closed, the wait group is released again -/
 def dialStartFail (c : Conn) (e : Err) : Conn :=
   { c with dial := .done, dialN := c.dialN + 1, closed := true, cause := some e, cerr := e, fdOpen := false,
-           unmanaged := true, log := c.log + 1 }
+           inTable := false, unmanaged := true, log := c.log + 1 }
 
 /-- `DialAsyncTimeout` after a connect that completed at once: the success is reported through `Async` -/
 def dialNow (c : Conn) : Conn :=
@@ -136,8 +136,8 @@ def dialed (c : Conn) : Conn :=
 
 /-- the write timer fires: `closeWithError(errWriteTimeout | ErrDialTimeout)` -/
 def timerW (c : Conn) : Conn :=
-  let c' := flip c (if c.wTdial then .dtimeout else .wtimeout) true
-  if c.closed then c' else { c' with byDialTimer := c.wTdial }
+  if c.closed then c
+  else { flip c (if c.wTdial then .dtimeout else .wtimeout) true with byDialTimer := c.wTdial }
 
 inductive Act
   | addCheck | addOpen | addTable | addReg
@@ -163,8 +163,8 @@ def step (c : Conn) : Act → Option Conn
   | .addOpen => if (c.kind == .add || c.kind == .acc) && c.add == 1 then some (addOpen c) else none
   | .addTable => if (c.kind == .add || c.kind == .acc) && c.add == 2 then some (addTable c) else none
   | .addReg => if (c.kind == .add || c.kind == .acc) && c.add == 3 then some (addReg c) else none
-  | .sessOpen => if c.kind == .sess && c.add == 0 then some (sessOpen c) else none
-  | .udpListen => if c.kind == .udp && c.add == 0 then some (udpListen c) else none
+  | .sessOpen => if c.kind == .sess && c.add == 0 && !c.closed then some (sessOpen c) else none
+  | .udpListen => if c.kind == .udp && c.add == 0 && !c.closed then some (udpListen c) else none
   | .dialStart => if c.kind == .dial && c.dial == .none && !c.closed then some (dialStart c) else none
   | .dialStartFail e => if c.kind == .dial && c.dial == .none && !c.closed then some (dialStartFail c e) else none
   | .dialNow => if c.kind == .dial && c.dial == .none && !c.closed then some (dialNow c) else none
